@@ -26,6 +26,10 @@ impl Num for f64 {}
 const XKINDS: [&str; 4] = ["continuous", "normal", "small-int", "lattice"];
 
 fn draw_n(rng: &mut Rng) -> usize {
+    // the `large` family: several hundred rows
+    if scverif::big() > 0 {
+        return rng.us(560, 900);
+    }
     let r = rng.f();
     if r < 0.3 {
         rng.us(4, 10)
@@ -157,6 +161,10 @@ fn draw_label_values(rng: &mut Rng, k: usize, is32: bool) -> Vec<f64> {
         } else {
             (0..k).map(|i| i as f64 * 2.0 - 1.0).collect()
         }
+    } else if k > 11 {
+        // many classes: half-integers from -k/2 upwards, shuffled (all exactly representable in f32)
+        let perm = rng.perm(k);
+        (0..k).map(|i| (perm[i] as f64 - (k / 2) as f64) * 0.5).collect()
     } else {
         // all exactly representable in f32
         let pool = [-7.5, -3.0, -1.0, 0.0, 0.5, 1.0, 2.0, 5.0, 10.0, 100.0, 1048576.0];
@@ -493,11 +501,13 @@ fn same_bits_or_both_nan(a: &[f64], b: &[f64]) -> bool {
 // ------------------------------------------------------------------------------------ classifier
 
 fn clf_t<T: Num>(c: &mut Case, grown: bool) {
+    let idx = c.index;
     let w = width::<T>();
     let is32 = w == "f32";
     let n = draw_n(&mut c.rng);
     let p = c.rng.us(1, 6);
-    let k = c.rng.us(2, 4);
+    // the `large` family: more classes than a byte counts
+    let k = if scverif::big() > 0 { c.rng.us(257, 280) } else { c.rng.us(2, 4) };
     let xkind: &str = if grown { "lattice" } else { *c.rng.pick(&XKINDS) };
     let mut x = draw_x(&mut c.rng, n, p, xkind, is32);
     let mods = if grown { Vec::new() } else { modify_x(&mut c.rng, &mut x) };
@@ -524,8 +534,19 @@ fn clf_t<T: Num>(c: &mut Case, grown: bool) {
 
     // ---- two fits with the same data, parameters and seed
     let mut fits = Vec::new();
+    // calls that must leave no trace in the fits that follow them on the same thread: a refused fit (single class)
+    // before the first fit, or a fit of other data between the two
+    if idx % 6 == 5 {
+        let one: Vec<T> = vec![yv[0]; n];
+        let _ = guard(|| RandomForestClassifier::<T>::fit(&xm, &one, clf_params(&prm)).map(|_| ()));
+        c.bucket("preceded-by-a-refused-fit");
+    }
     for which in ["first", "second"] {
-        match c.must("clf.fit", || RandomForestClassifier::<T>::fit(&xm, &yv, clf_params(&prm))) {
+        if idx % 6 == 4 && which == "second" {
+            let _ = guard(|| RandomForestClassifier::<T>::fit(&xfm, &yv[..xf.r.min(n)].to_vec(), clf_params(&prm)).map(|_| ()));
+            c.bucket("unrelated-fit-in-between");
+        }
+        match c.must("clf.fit", || RandomForestClassifier::<T>::fit(&xm, &yv, scverif::reused(idx, clf_params(&prm)))) {
             Some(Ok(f)) => fits.push(f),
             Some(Err(e)) => {
                 c.check("clf.fit.ok", false, &sg, || format!("{} fit returned Err({}) for {} rows, {} classes", which, e, n, k));
@@ -750,6 +771,7 @@ fn clf_t<T: Num>(c: &mut Case, grown: bool) {
 // ------------------------------------------------------------------------------------ regressor
 
 fn reg_t<T: Num>(c: &mut Case, grown: bool) {
+    let idx = c.index;
     let w = width::<T>();
     let is32 = w == "f32";
     let n = draw_n(&mut c.rng);
@@ -786,7 +808,13 @@ fn reg_t<T: Num>(c: &mut Case, grown: bool) {
 
     let mut fits = Vec::new();
     for which in ["first", "second"] {
-        match c.must("reg.fit", || RandomForestRegressor::<T>::fit(&xm, &yv, reg_params(&prm))) {
+        if idx % 6 == 4 && which == "second" {
+            // a fit of other data between the two must leave no trace
+            let other: Vec<T> = yv.iter().rev().cloned().collect();
+            let _ = guard(|| RandomForestRegressor::<T>::fit(&xm, &other, reg_params(&prm)).map(|_| ()));
+            c.bucket("unrelated-fit-in-between");
+        }
+        match c.must("reg.fit", || RandomForestRegressor::<T>::fit(&xm, &yv, scverif::reused(idx, reg_params(&prm)))) {
             Some(Ok(f)) => fits.push(f),
             Some(Err(e)) => {
                 c.check("reg.fit.ok", false, &sg, || format!("{} fit returned Err({}) for {} rows", which, e, n));
@@ -1049,6 +1077,15 @@ fn api_paths_fam(c: &mut Case) {
     scverif::apipaths::case(c, "C06")
 }
 
+/// forests on 560..900 rows, classifiers with 257..280 classes (beyond the ordinary bounds of 120 rows and 4 classes)
+fn large(c: &mut Case) {
+    let g = c.index % 3;
+    scverif::with_big(1, || match g {
+        0 | 1 => clf(c),
+        _ => reg(c),
+    })
+}
+
 fn main() {
     runner::main(Spec {
         property: "C06",
@@ -1067,6 +1104,7 @@ fn main() {
             Family::new("reg", 4000, 100000, reg),
             Family::new("clf_grown", 1500, 30000, clf_grown),
             Family::new("reg_grown", 1500, 30000, reg_grown),
+            Family::new("large", 48, 960, large),
         ],
         min_nontrivial: 1800,
         case_timeout_s: 120,
